@@ -5,6 +5,9 @@ PROPERTY = "C08"
 
 THEOREMS = [
     "P3R.C08.mmcs_agree_arity2_partial",
+    "P3R.C08.mmcs_agree_arity2_checked",
+    "P3R.C08.mmcs_agree_arity2_core",
+    "P3R.C08.cap_taller_than_index",
     "P3R.C08.sponge_overwrite_eq",
     "P3R.C08.cap_select_eq",
     "P3R.C08.index_bits_eq",
@@ -15,7 +18,27 @@ THEOREMS = [
     "P3R.C08.Witness.mmcs_agree_arity4_false",
     "P3R.C08.Witness.shifted_row_boundary_disagree",
     "P3R.C08.Witness.height_off_ladder_disagree",
+    "P3R.C08.Witness.shifted_row_boundary_repaired",
+    "P3R.C08.Witness.height_off_ladder_repaired",
+    "P3R.C08.Witness.cap_taller_than_index_record",
 ]
+
+# Which build-time shape checks the gadget in /repo is declared to have = which repairs have been
+# applied, read from known_findings.json (status "fixed"): the Lean circuit model is parametric in
+# these three flags (P3R.Mmcs.Checks) and the driver is told which gadget it models. A patch that is
+# declared applied but missing (or lost again) makes the real gadget accept / panic where the model and
+# the native verifier do not: an oracle violation of a class that is no longer "known" plus a model
+# disagreement.
+REPAIRS = [("F-C08-3", "heights"), ("F-C08-2", "widths"), ("F9p", "capbits")]
+
+
+def gadget_checks(root):
+    try:
+        fs = json.load(open(os.path.join(root, "known_findings.json")))["findings"]
+    except Exception:
+        fs = []
+    fixed = {f["id"] for f in fs if f.get("status") == "fixed"}
+    return "".join("1" if fid in fixed else "0" for fid, _ in REPAIRS)
 
 CORRESPONDENCE = ("MMCS: p3_merkle_tree verify_batch (+ExtensionMmcs/MerkleTreeHidingMmcs) and "
                   "verify_batch_circuit{,_from_extension_opened}{,_arity4} + runner  vs  "
@@ -44,13 +67,14 @@ def run(ctx):
                 dict(groups=400, max_log=5, indices=8, allpos=1, corpus=None),
                 dict(groups=300, max_log=14, indices=6, allpos=0, corpus=None)]
     driver = os.path.join(ctx["driver_dir"], "p3r_driver_c08")
+    flags = gadget_checks(ctx["root"])
     violations, hist, samples = [], {}, []
     evaluations = distinct = validated = disagreements = 0
     for n, r in enumerate(runs):
         out = f"{work}/run{n}"
         cmd = [ctx["harness"], "mmcs", "--seed", str(seed + 1000 * n), "--groups", str(r["groups"]),
                "--max-log", str(r["max_log"]), "--indices", str(r["indices"]), "--all-positions", str(r["allpos"]),
-               "--out", out]
+               "--gadget-checks", flags, "--out", out]
         if r["corpus"]:
             cmd += ["--corpus", r["corpus"]]
         rc, o = sh(cmd, timeout=7200)
@@ -95,7 +119,8 @@ def run(ctx):
                    "distinct = distinct (batch shape+data seed, index, alteration) triples, hashed",
            "samples": samples[:4], "input_distribution": hist,
            "traces_validated_against_impl": validated, "disagreements_checked": disagreements,
-           "correspondence": CORRESPONDENCE}
+           "correspondence": CORRESPONDENCE,
+           "gadget_checks_modelled": {name: flags[i] == "1" for i, (_, name) in enumerate(REPAIRS)}}
     return violations, cov
 
 
@@ -114,9 +139,10 @@ CHECK = {
         "model; the implementation side calls the real wrappers",
     ],
     "assumptions": [
-        "mmcs_agree_arity2_partial assumes the conjuncts the gadget does not check: geometry gate, row widths (positive), "
-        "index < max_height, opening shape = circuit shape, cap length 2^min(cap_height, log2_ceil(max_height)); the witnesses show "
-        "the first two are necessary",
+        "mmcs_agree_arity2_partial assumes: positive widths, index < max_height, opening shape = circuit shape, cap length "
+        "2^min(cap_height, log2_ceil(max_height)); the geometry gate and the row-width check are hypotheses only for a gadget "
+        "that lacks them (before fixes/C08-3, fixes/C08-2; the Checks.none witnesses show they are then necessary) and proved "
+        "facts for a gadget that has them (mmcs_agree_arity2_checked)",
         "permutation: any map on lists preserving length W (theorems); runs use a toy map and the real Poseidon2 (recorded table)",
         "arity 4: model + correspondence + negative witness only, no agreement theorem",
         "D=1 permutation configurations (per-base lifting, quintic extension) are not exercised",
